@@ -326,7 +326,7 @@ func (s *SMT) sortOf(t types.Type) string {
 }
 
 func (s *SMT) structSort(t types.Type, u *types.Struct) string {
-	key := t.String()
+	key := canonType(t).String()
 	if n, ok := s.structs[key]; ok {
 		return n
 	}
